@@ -726,6 +726,19 @@ def big_bits2(m, mt, args, tys, dty):
         m.decisions.append(('bits', b))
         m.assume(z3.And(x >= 2 ** (b - 1), x < 2 ** b) if b > 0 else (x == 0))
         return b
+    if BITS_MODE[0] == 'ladder':
+        # exact bit length up to B bits by true threshold facts (b > t  <=>  x >= 2^t), monotone beyond: used to refine a
+        # counterexample found under the uninterpreted abstraction (whose models need not respect the real bits())
+        B = BITS_MODE[1] or 192
+        b = m.fresh('bits')
+        m.assume(z3.And(b >= 0, (b == 0) == (x == 0)))
+        m.assume(z3.And([(b > t) == (x >= 2 ** t) for t in range(0, B + 1)]))
+        if not hasattr(m, 'bits_instances'):
+            m.bits_instances = []
+        for (x2, b2) in m.bits_instances:
+            m.assume(z3.And(z3.Implies(x <= x2, b <= b2), z3.Implies(x2 <= x, b2 <= b)))
+        m.bits_instances.append((x, b))
+        return b
     if BITS_MODE[0] == 'fixed':
         # harness promises 2^(b-1) <= x < 2^b (b = BITS_MODE[1]); verified here with one query
         b = BITS_MODE[1]
@@ -3020,10 +3033,20 @@ def big_signum(m, mt, args, tys, dty):
     return z3.If(x > 0, 1, z3.If(x < 0, -1, 0)) if is_sym(x) else ((x > 0) - (x < 0))
 
 
-@summary(r'<%s as (?:num_integer::)?Integer>::(div_floor|mod_floor|gcd|is_multiple_of)' % BIG)
+@summary(r'<%s as (?:num_integer::)?Integer>::(div_floor|mod_floor|div_mod_floor|gcd|is_multiple_of)' % BIG)
 def big_integer_more(m, mt, args, tys, dty):
     x, y = deref(args[0]), deref(args[1])
     op = mt.group(1)
+    if op == 'div_mod_floor':
+        if is_sym(y):
+            raise Unsupported('Integer::div_mod_floor by a symbolic value')
+        if y == 0:
+            raise Panic('DivByZero', 'div_mod_floor by zero')
+        if not is_sym(x):
+            return Agg('tuple', '()', [x // y, x % y])
+        q, r = m.fresh('fq'), m.fresh('fr')
+        m.assume(z3.And(x == q * y + r, r >= 0, r < abs(y)) if y > 0 else z3.And(x == q * y + r, r <= 0, r > y))
+        return Agg('tuple', '()', [q, r])
     if is_sym(y):
         raise Unsupported('Integer::%s by a symbolic value' % op)
     if op == 'is_multiple_of':
